@@ -101,8 +101,338 @@ func extKey(fn *ssa.Function) string {
 	return p.Path() + "." + name
 }
 
+// mustDeref: parameters that fn dereferences unconditionally (in its entry block, directly or by
+// passing them on to such a parameter of a callee). Calling fn with nil for one of them panics.
+func (P *Program) mustDeref(fn *ssa.Function) []bool {
+	P.mdMu.Lock()
+	if r, ok := P.mdCache[fn]; ok {
+		P.mdMu.Unlock()
+		return r
+	}
+	if P.mdCache == nil {
+		P.mdCache = map[*ssa.Function][]bool{}
+	}
+	res := make([]bool, len(fn.Params))
+	P.mdCache[fn] = res // breaks recursion
+	P.mdMu.Unlock()
+	if len(fn.Blocks) == 0 {
+		return res
+	}
+	idx := map[ssa.Value]int{}
+	for i, p := range fn.Params {
+		idx[p] = i
+	}
+	mark := func(v ssa.Value) {
+		if i, ok := idx[v]; ok {
+			switch types.Unalias(fn.Params[i].Type()).Underlying().(type) {
+			case *types.Pointer, *types.Interface:
+				res[i] = true
+			}
+		}
+	}
+	for _, in := range fn.Blocks[0].Instrs {
+		switch x := in.(type) {
+		case *ssa.FieldAddr:
+			mark(x.X)
+		case *ssa.UnOp:
+			if x.Op == token.MUL {
+				mark(x.X)
+			}
+		case *ssa.Store:
+			mark(x.Addr)
+		case *ssa.Call:
+			c := x.Common()
+			if c.IsInvoke() {
+				mark(c.Value)
+			} else if callee := c.StaticCallee(); callee != nil && isModuleFunc(callee) && callee != fn {
+				if o := callee.Origin(); o != nil {
+					callee = o
+				}
+				md := P.mustDeref(callee)
+				for i, a := range c.Args {
+					if i < len(md) && md[i] {
+						mark(a)
+					}
+				}
+			}
+		case *ssa.If, *ssa.Jump, *ssa.Return, *ssa.Panic:
+		}
+	}
+	return res
+}
+
+// mayWriteParam: may fn (transitively) write memory reachable from its i-th parameter? A simple
+// syntactic may-analysis: stores through addresses derived from the parameter, or the parameter
+// (or something derived from it) escaping into an external / dynamic / interface call, a closure,
+// a store or a return value.
+func (P *Program) mayWriteParam(fn *ssa.Function) []bool {
+	P.mdMu.Lock()
+	if r, ok := P.mwCache[fn]; ok {
+		P.mdMu.Unlock()
+		return r
+	}
+	if P.mwCache == nil {
+		P.mwCache = map[*ssa.Function][]bool{}
+	}
+	res := make([]bool, len(fn.Params))
+	for i := range res {
+		res[i] = true // pessimistic while computing (recursion)
+	}
+	P.mwCache[fn] = res
+	P.mdMu.Unlock()
+	if len(fn.Blocks) == 0 {
+		return res
+	}
+	// derived[v] = set of param indexes v is derived from (address computations, loads of pointers, conversions)
+	derived := map[ssa.Value]map[int]bool{}
+	for i, p := range fn.Params {
+		derived[p] = map[int]bool{i: true}
+	}
+	add := func(dst ssa.Value, src ssa.Value) bool {
+		changed := false
+		for i := range derived[src] {
+			if derived[dst] == nil {
+				derived[dst] = map[int]bool{}
+			}
+			if !derived[dst][i] {
+				derived[dst][i] = true
+				changed = true
+			}
+		}
+		return changed
+	}
+	tmp := make([]bool, len(fn.Params))
+	mark := func(v ssa.Value) {
+		for i := range derived[v] {
+			tmp[i] = true
+		}
+	}
+	for changed := true; changed; {
+		changed = false
+		for _, b := range fn.Blocks {
+			for _, in := range b.Instrs {
+				switch x := in.(type) {
+				case *ssa.FieldAddr:
+					changed = add(x, x.X) || changed
+				case *ssa.IndexAddr:
+					changed = add(x, x.X) || changed
+				case *ssa.UnOp:
+					changed = add(x, x.X) || changed
+				case *ssa.ChangeType:
+					changed = add(x, x.X) || changed
+				case *ssa.ChangeInterface:
+					changed = add(x, x.X) || changed
+				case *ssa.MakeInterface:
+					changed = add(x, x.X) || changed
+				case *ssa.Convert:
+					changed = add(x, x.X) || changed
+				case *ssa.Slice:
+					changed = add(x, x.X) || changed
+				case *ssa.Field:
+					changed = add(x, x.X) || changed
+				case *ssa.TypeAssert:
+					changed = add(x, x.X) || changed
+				case *ssa.Extract:
+					changed = add(x, x.Tuple) || changed
+				case *ssa.Phi:
+					for _, e := range x.Edges {
+						changed = add(x, e) || changed
+					}
+				}
+			}
+		}
+	}
+	for _, b := range fn.Blocks {
+		for _, in := range b.Instrs {
+			switch x := in.(type) {
+			case *ssa.Store:
+				mark(x.Addr)
+				if isPointerLike(x.Val.Type()) || isInterfaceLike(x.Val.Type()) {
+					mark(x.Val) // escapes
+				}
+			case *ssa.MapUpdate:
+				mark(x.Map)
+				mark(x.Value)
+			case *ssa.MakeClosure:
+				for _, bnd := range x.Bindings {
+					mark(bnd)
+				}
+			case *ssa.Return:
+				for _, r := range x.Results {
+					if isPointerLike(r.Type()) || isInterfaceLike(r.Type()) {
+						if _, ok := types.Unalias(r.Type()).Underlying().(*types.Slice); !ok {
+							mark(r) // aliasing result: later writes by the caller are the caller's
+						}
+					}
+				}
+			case ssa.CallInstruction:
+				c := x.Common()
+				if c.IsInvoke() {
+					for _, a := range c.Args {
+						if _, isPtr := types.Unalias(a.Type()).Underlying().(*types.Pointer); isPtr {
+							mark(a)
+						}
+					}
+					continue
+				}
+				if _, ok := c.Value.(*ssa.Builtin); ok {
+					if c.Value.Name() == "append" || c.Value.Name() == "copy" || c.Value.Name() == "delete" {
+						mark(c.Args[0])
+					}
+					continue
+				}
+				callee := c.StaticCallee()
+				if callee != nil {
+					if o := callee.Origin(); o != nil {
+						callee = o
+					}
+				}
+				switch {
+				case callee != nil && isModuleFunc(callee) && len(callee.Blocks) > 0:
+					mw := P.mayWriteParam(callee)
+					for i, a := range c.Args {
+						if i >= len(mw) || mw[i] {
+							mark(a)
+						}
+					}
+					if mc, ok := c.Value.(*ssa.MakeClosure); ok {
+						for _, bnd := range mc.Bindings {
+							mark(bnd)
+						}
+					}
+				case callee != nil && pureExternal(callee):
+				case callee != nil && readOnlyExternal(callee):
+				default:
+					for _, a := range c.Args {
+						mark(a)
+					}
+				}
+			}
+		}
+	}
+	copy(res, tmp)
+	return res
+}
+
+// readOnlyExternal: frequently used external functions known not to write through their pointer arguments.
+func readOnlyExternal(fn *ssa.Function) bool {
+	switch extKey(fn) {
+	case "net/http.Request.Context", "net/http.Request.WithContext", "net/http.Request.BasicAuth", "net/http.Request.Cookie",
+		"log/slog.Logger.Log", "log/slog.Logger.Error", "log/slog.Logger.ErrorContext", "log/slog.Logger.Info", "log/slog.Logger.Debug", "log/slog.Logger.With",
+		"net/url.URL.String", "net/url.URL.Query", "net/url.URL.Hostname", "net/url.Values.Get", "net/url.Values.Encode", "net/http.Header.Get",
+		"context.WithValue", "context.WithCancel", "context.WithTimeout", "github.com/zitadel/logging.FromContext":
+		return true
+	}
+	return false
+}
+
+// nonNilResults: results of fn that are non-nil on every return (allocation, closure, the
+// unconditionally dereferenced receiver of a fluent method, or such a result of a callee).
+func (P *Program) nonNilResults(fn *ssa.Function) []bool {
+	P.mdMu.Lock()
+	if r, ok := P.nnCache[fn]; ok {
+		P.mdMu.Unlock()
+		return r
+	}
+	if P.nnCache == nil {
+		P.nnCache = map[*ssa.Function][]bool{}
+	}
+	n := fn.Signature.Results().Len()
+	res := make([]bool, n)
+	P.nnCache[fn] = res
+	P.mdMu.Unlock()
+	if len(fn.Blocks) == 0 || n == 0 {
+		return res
+	}
+	md := P.mustDeref(fn)
+	var nonNil func(v ssa.Value, depth int) bool
+	nonNil = func(v ssa.Value, depth int) bool {
+		if depth > 6 {
+			return false
+		}
+		switch x := v.(type) {
+		case *ssa.Alloc, *ssa.MakeClosure, *ssa.Function, *ssa.Global, *ssa.MakeMap, *ssa.MakeChan, *ssa.FieldAddr, *ssa.IndexAddr:
+			return true
+		case *ssa.MakeInterface:
+			if isPointerLike(x.X.Type()) {
+				return nonNil(x.X, depth+1)
+			}
+			return true
+		case *ssa.ChangeType:
+			return nonNil(x.X, depth+1)
+		case *ssa.ChangeInterface:
+			return nonNil(x.X, depth+1)
+		case *ssa.Parameter:
+			for i, p := range fn.Params {
+				if p == x {
+					return md[i]
+				}
+			}
+		case *ssa.Phi:
+			for _, e := range x.Edges {
+				if e == v || !nonNil(e, depth+1) {
+					return false
+				}
+			}
+			return true
+		case *ssa.Call:
+			if callee := x.Common().StaticCallee(); callee != nil && isModuleFunc(callee) && callee != fn && callee.Signature.Results().Len() == 1 {
+				if o := callee.Origin(); o != nil {
+					callee = o
+				}
+				return P.nonNilResults(callee)[0]
+			}
+			// call through a package-level func variable initialised with a closure (oidc.ErrXxx)
+			if ld, ok := x.Common().Value.(*ssa.UnOp); ok {
+				if g, ok := ld.X.(*ssa.Global); ok && !P.unstable[g] {
+					if gi := P.globalInit[g]; gi != nil && gi.kind == "func" && gi.fn.Signature.Results().Len() == 1 {
+						return P.nonNilResults(gi.fn)[0]
+					}
+				}
+			}
+		case *ssa.Extract:
+			if c, ok := x.Tuple.(*ssa.Call); ok {
+				if callee := c.Common().StaticCallee(); callee != nil && isModuleFunc(callee) && callee != fn {
+					if o := callee.Origin(); o != nil {
+						callee = o
+					}
+					r := P.nonNilResults(callee)
+					return x.Index < len(r) && r[x.Index]
+				}
+			}
+		}
+		return false
+	}
+	tmp := make([]bool, n)
+	for i := range tmp {
+		switch types.Unalias(fn.Signature.Results().At(i).Type()).Underlying().(type) {
+		case *types.Pointer, *types.Interface, *types.Map, *types.Signature:
+			tmp[i] = !isErrorType(fn.Signature.Results().At(i).Type())
+		}
+	}
+	for _, b := range fn.Blocks {
+		if len(b.Instrs) == 0 {
+			continue
+		}
+		ret, ok := b.Instrs[len(b.Instrs)-1].(*ssa.Return)
+		if !ok {
+			continue
+		}
+		for i := range tmp {
+			if tmp[i] && (i >= len(ret.Results) || !nonNil(ret.Results[i], 0)) {
+				tmp[i] = false
+			}
+		}
+	}
+	copy(res, tmp)
+	return res
+}
+
 func (fr *Frame) canInline(fn *ssa.Function) bool {
 	if fr.depth >= fr.vc.opts.MaxInline {
+		return false
+	}
+	if fr.vc.opts.InlineBudget > 0 && fr.vc.inlinedInstrs > fr.vc.opts.InlineBudget {
 		return false
 	}
 	k := funcKey(fn)
@@ -124,6 +454,9 @@ func (fr *Frame) canInline(fn *ssa.Function) bool {
 func (fr *Frame) inline(st *State, call ssa.CallInstruction, fn *ssa.Function, args, bindings []Term) []Term {
 	vc := fr.vc
 	vc.Inlined[funcKey(fn)] = true
+	for _, b := range fn.Blocks {
+		vc.inlinedInstrs += len(b.Instrs)
+	}
 	sub := vc.newFrame(fn, fr)
 	out, res := sub.run(st, args, bindings)
 	if out == nil {
@@ -151,13 +484,37 @@ func (fr *Frame) defaultCall(st *State, call ssa.CallInstruction, key string, si
 	}
 	if fn != nil && isModuleFunc(fn) {
 		vc.Abstracted["call not inlined (summary): "+key] = true
+		// inferred precondition: arguments the callee dereferences unconditionally must be non-nil
+		if vc.opts.Safety {
+			md := vc.P.mustDeref(fn)
+			for i, a := range argVals {
+				if i < len(md) && md[i] && i < len(args) {
+					g := fr.nilGoal(a, args[i])
+					vc.oblig(fr, st, "nil-arg", "", shortName(key)+"("+describe(a, 0)+")", g, call.Pos())
+				}
+			}
+		}
 	} else if !pure {
 		vc.Assumed["external without spec (default summary): "+key] = true
 	}
 	clkBefore := st.clk
 	if !pure {
 		clkBefore = vc.bumpClock(st)
-		fr.havocArgs(st, argVals, args, false, clkBefore)
+		hv, ha := argVals, args
+		if fn != nil && isModuleFunc(fn) && len(fn.Blocks) > 0 {
+			// only the arguments the callee may write through (may-analysis) are havoced
+			mw := vc.P.mayWriteParam(fn)
+			hv, ha = nil, nil
+			for i := range argVals {
+				if i < len(args) && (i >= len(mw) || mw[i]) {
+					hv = append(hv, argVals[i])
+					ha = append(ha, args[i])
+				}
+			}
+		} else if fn != nil && readOnlyExternal(fn) {
+			hv, ha = nil, nil
+		}
+		fr.havocArgs(st, hv, ha, false, clkBefore)
 	}
 	var res []Term
 	n := sig.Results().Len()
@@ -203,6 +560,25 @@ func (fr *Frame) defaultCall(st *State, call ssa.CallInstruction, key string, si
 		res = append(res, r)
 	}
 	fr.assumeIdiom(st, sig, res, key)
+	if fn != nil && !isModuleFunc(fn) {
+		for i := 0; i < n; i++ {
+			if isErrorType(sig.Results().At(i).Type()) {
+				vc.sc.Assume(st.reach, vc.notModuleErr(res[i]))
+			}
+		}
+	}
+	if fn != nil && isModuleFunc(fn) {
+		for i, nn := range vc.P.nonNilResults(fn) {
+			if nn && i < len(res) {
+				switch vc.sortOf(sig.Results().At(i).Type()) {
+				case "Ref":
+					vc.sc.Assume(st.reach, Not(Eq(res[i], "nilref")))
+				case "Val":
+					vc.sc.Assume(st.reach, And(Not(Eq(res[i], "nilval")), sx("vnn", res[i])))
+				}
+			}
+		}
+	}
 	if fn != nil && !isModuleFunc(fn) && n >= 1 && !(n >= 2 && isErrorType(sig.Results().At(n-1).Type())) {
 		// external constructors / getters without an error result return usable values
 		for i := 0; i < n; i++ {
@@ -211,7 +587,13 @@ func (fr *Frame) defaultCall(st *State, call ssa.CallInstruction, key string, si
 				continue
 			}
 			switch vc.sortOf(rt) {
-			case "Ref", "Val":
+			case "Ref":
+				if _, isMap := types.Unalias(rt).Underlying().(*types.Map); !isMap {
+					vc.sc.Assume(st.reach, Not(Eq(res[i], "nilref")))
+				}
+				vc.trusted[res[i]] = true
+				vc.Assumed["external function without error result returns non-nil: "+key] = true
+			case "Val":
 				vc.trusted[res[i]] = true
 				vc.Assumed["external function without error result returns non-nil: "+key] = true
 			}
@@ -672,6 +1054,7 @@ func (fr *Frame) dynamicCall(st *State, call ssa.CallInstruction, args []Term) [
 		res = append(res, r)
 	}
 	vc.recordCallSyms("dyn:"+describe(c.Value, 0), sig, res)
+	fr.assumeIdiom(st, sig, res, "function value "+describe(c.Value, 0))
 	return res
 }
 
